@@ -195,6 +195,7 @@ func rewriteFile(pkg *packages.Package, f *ast.File, rel string, next *int, res 
 	})
 
 	hasGo := false
+	ioutilRewritten, ioutilStillUsed := false, false
 	osStillUsed := false
 	timeStillUsed := false
 	osImported, timeImported := false, false
@@ -249,6 +250,17 @@ func rewriteFile(pkg *packages.Package, f *ast.File, rel string, next *int, res 
 					changed = true
 					return true
 				}
+			case path == "io/ioutil" && (name == "WriteFile" || name == "TempDir" || name == "TempFile"):
+				if _, ok := obj.(*types.Func); ok {
+					newSite("disk", n, "ioutil."+name)
+					n.X = ast.NewIdent(RuntimeImport)
+					n.Sel = ast.NewIdent(map[string]string{"WriteFile": "WriteFile", "TempDir": "MkdirTemp", "TempFile": "CreateTemp"}[name])
+					changed = true
+					ioutilRewritten = true
+					return true
+				}
+			case path == "io/ioutil":
+				ioutilStillUsed = true
 			case path == "os" && (name == "Getpid" || name == "Hostname"):
 				newSite("ambient", n, "os."+name)
 				n.X = ast.NewIdent(RuntimeImport)
@@ -312,6 +324,9 @@ func rewriteFile(pkg *packages.Package, f *ast.File, rel string, next *int, res 
 		}
 		if timeImported && !timeStillUsed && !usesPkgOtherwise(f, info, "time") {
 			astutil.DeleteImport(fset, f, "time")
+		}
+		if ioutilRewritten && !ioutilStillUsed && !usesPkgOtherwise(f, info, "io/ioutil") {
+			astutil.DeleteImport(fset, f, "io/ioutil")
 		}
 	}
 	return changed, nil
